@@ -21,6 +21,7 @@ import (
 	"sync/atomic"
 
 	"github.com/fasthttp/websocket"
+	"github.com/hprose/hprose-golang/v3/internal/verifhook"
 	"github.com/hprose/hprose-golang/v3/rpc/core"
 )
 
@@ -102,6 +103,9 @@ func (c *conn) Transport(ctx context.Context, request []byte) (response []byte, 
 	index := int(atomic.AddInt32(&c.counter, 1) & 0x7fffffff)
 	resultChan := make(chan data, 1)
 	c.store(index, resultChan)
+	if verifhook.On {
+		verifhook.Gate("mux.afterStore", c, index, request)
+	}
 	select {
 	case <-ctx.Done():
 		c.delete(index)
@@ -124,6 +128,9 @@ func (c *conn) Transport(ctx context.Context, request []byte) (response []byte, 
 
 func (c *conn) Exit(onExit func(), err error) {
 	onExit()
+	if verifhook.On {
+		verifhook.Gate("mux.afterOnExit", c, err)
+	}
 	if e := recover(); e != nil {
 		err = core.NewPanicError(e)
 	}
@@ -228,6 +235,9 @@ func (c *conn) Close(err error) {
 			Error: err,
 		}
 	})
+	if verifhook.On {
+		verifhook.Gate("mux.afterClean", c, err)
+	}
 }
 
 type Transport struct {
@@ -287,6 +297,9 @@ func (trans *Transport) Transport(ctx context.Context, request []byte) ([]byte, 
 	conn, err := trans.getConn(ctx)
 	if err != nil {
 		return nil, err
+	}
+	if verifhook.On {
+		verifhook.Gate("mux.afterGetConn", conn, request)
 	}
 	return conn.Transport(ctx, request)
 }
